@@ -193,13 +193,7 @@ fn check_seq_via(cfg: &Cfg, ops: &[Op], via: Option<(usize, Via)>, out: &mut Job
             m = m.max(op.maxmag());
             if let Some((at, v)) = via {
                 if at == i {
-                    s = match v {
-                        Via::Serde => {
-                            let bytes = s.ser().expect("harness: serialize");
-                            s.de(&bytes).expect("harness: deserialize")
-                        }
-                        _ => s.dup(),
-                    };
+                    s = apply_via(cfg, s, v);
                 }
             }
             let got = s.apply(op);
@@ -221,8 +215,8 @@ fn check_seq_via(cfg: &Cfg, ops: &[Op], via: Option<(usize, Via)>, out: &mut Job
             if let Some((i, got, why)) = bad {
                 let mut v = Violation::new(PROP, cfg, &ops[..=i], "composite-differs-from-parts").obs(out2s(&got)).exp("the documented combination of separately constructed public parts".into()).det(why);
                 if let Some((at, how)) = via {
-                    v.detail.push_str(&format!(" [the composite was {} before input {}]", if how == Via::Serde { "serialized with bincode and restored" } else { "replaced by its clone" }, at + 1));
-                    v.extra.insert("checkpoint".into(), format!("{}@{}", if how == Via::Serde { "serde" } else { "clone" }, at));
+                    v.detail.push_str(&format!(" [the composite was {} before input {}]", how.text(), at + 1));
+                    v.extra.insert("checkpoint".into(), format!("{}@{}", how.tag(), at));
                 }
                 out.fail(v);
             }
@@ -433,7 +427,7 @@ pub fn run(ctx: &Ctx) -> CheckResult {
                     })
                     .collect();
                 check_seq(cfg, &ops, &mut out);
-                for via in [Via::Serde, Via::Clone] {
+                for via in VIAS {
                     for at in [1usize, n / 2, n, n + 1, 2 * n + 1] {
                         if out.failed() {
                             return out;
